@@ -34,6 +34,35 @@ fn ct_build_fails(dir: &Path, id: u64, text: &str, err_on_conflicts: bool) -> Re
     r
 }
 
+/// per production of the grammar: `0` no `%prec`, `t + 1` the token named by its `%prec` — read off
+/// the source through cfgrammar's AST (productions of a rule keep their source order)
+fn explicit_precs(g: &cfgrammar::yacc::YaccGrammar<u32>, text: &str) -> Option<Vec<usize>> {
+    use cfgrammar::yacc::ast::ASTWithValidityInfo;
+    let av = ASTWithValidityInfo::new(YaccKind::Original(YaccOriginalActionKind::GenericParseTree), text);
+    if !av.is_valid() {
+        return None;
+    }
+    let ast = av.ast();
+    let mut v = vec![0usize; usize::from(g.prods_len())];
+    for (name, rule) in ast.rules.iter() {
+        let ridx = g.rule_idx(name)?;
+        let gp = g.rule_to_prods(ridx);
+        if gp.len() != rule.pidxs.len() {
+            return None;
+        }
+        for (k, ap) in rule.pidxs.iter().enumerate() {
+            let aprod = &ast.prods[*ap];
+            if aprod.symbols.len() != g.prod(gp[k]).len() {
+                return None;
+            }
+            if let Some(t) = &aprod.precedence {
+                v[usize::from(gp[k])] = usize::from(g.token_idx(t)?) + 1;
+            }
+        }
+    }
+    Some(v)
+}
+
 pub fn emit(out: &mut Out, dir: &Path, text: &str, err_on_conflicts: bool, kind: &str, prop: &str) {
     let g = match grammar::build(text) {
         Ok(g) => g,
@@ -52,14 +81,22 @@ pub fn emit(out: &mut Out, dir: &Path, text: &str, err_on_conflicts: bool, kind:
     };
     let id = out.id();
     let enc = |o: Option<usize>| o.map(|n| n + 1).unwrap_or(0);
+    let ep = match explicit_precs(&g, text) {
+        Some(v) => format!("1 {}", crate::out::join(&v)),
+        None => {
+            out.count("explicit_precs_not_extracted");
+            "0".to_string()
+        }
+    };
     let payload = format!(
-        "{} {} {} {} {} {}",
+        "{} {} {} {} {} {} {}",
         grammar::dump_grammar(&g),
         grammar::dump_precs(&g),
         dump_automaton(&g, &sg, &st),
         enc(g.expect()),
         enc(g.expectrr()),
-        if err_on_conflicts { 1 } else { 0 }
+        if err_on_conflicts { 1 } else { 0 },
+        ep
     );
     out.case(prop, id, &payload);
     let (cells, sa, ss, ro, cr) = views_text(&g, &sg, &st);
@@ -158,6 +195,13 @@ pub fn run_prop(a: &Args, prop: &str, pnum: u64) {
             emit(&mut out, &dir, t, false, "corpus", prop);
         }
     }
+    if prop == "C16" && a.shard == 1 % a.shards {
+        let mut rng = Rng::for_case(a.seed, pnum, 0);
+        for _ in 0..(if a.thorough { 12 } else { 4 }) {
+            let t = grammar::pager_orphan_family(&mut rng);
+            emit(&mut out, &dir, &t, true, "pager_orphan_family", prop);
+        }
+    }
     let n = if a.thorough { 6000 } else { 500 };
     let cfg = GenCfg { precs: true, ..GenCfg::default() };
     for case in 0..n {
@@ -165,7 +209,16 @@ pub fn run_prop(a: &Args, prop: &str, pnum: u64) {
             continue;
         }
         let mut rng = Rng::for_case(a.seed, pnum, case as u64 + 1);
-        let g0 = grammar::random_grammar(&mut rng, &cfg);
+        // C16: a fifth of the grammars are bigger (more states: merges that orphan states, rows with
+        // several reductions of one rule) or layered
+        let g0 = if prop == "C16" && case % 5 == 1 {
+            let big = GenCfg { precs: rng.chance(1, 3), max_rules: 6, max_toks: 5, max_prods: 4, max_len: 4 };
+            grammar::random_grammar(&mut rng, &big)
+        } else if prop == "C16" && case % 5 == 3 {
+            grammar::layered_grammar(&mut rng)
+        } else {
+            grammar::random_grammar(&mut rng, &cfg)
+        };
         let g = if rng.chance(1, 2) { with_expect(&g0, &mut rng) } else { g0 };
         let eoc = !rng.chance(1, 8);
         emit(&mut out, &dir, &g.render(), eoc, "random", prop);
